@@ -8,7 +8,7 @@ PID = "C10"
 RULE = ("one request per case, per guarded entry point; non-trivial = an argument exactly on or adjacent to a guard boundary: index in "
         "{size-1, size, size+1, UINT_MAX}, shapes equal / transposed / off by one, table length 0..3, x within 4 ulp of an interpolation-domain "
         "end or of the 1 % tolerance point, p within 1 ulp of 0 or 1, digits 7/8, n 170/171, parameter 0 or +-denorm_min, a root bracket with a "
-        "zero or equal-sign end value, a method name differing from a valid one in one character; for requests that are not the first one on an object "
+        "zero or equal-sign end value, a method name that is not a documented one but is taken for one by a comparison weaker than string equality (every proper prefix, extensions by a character / blank / NUL, case, one character changed to a neighbour or with its high bit set, deletions, doublings, transpositions, anagrams, same length / first / last character, other separators, and names with the same 32-bit djb2 / djb2a / sdbm / 31- / 131-multiplier / FNV-1 / FNV-1a hash value or the same value of h*B+c for B = 2, 31, 33, 37 in integer arithmetic), on every entry point that takes a method name; for requests that are not the first one on an object "
         "(Matrix/Vector after Resize/Assign/Delete_/copy/assignment/sum/product/transposition, Interpolation after k other requests, Factorial after other "
         "Factorial/Binomial_Coefficient requests) and for constructors with unit arguments: the request at the boundary of the NEW state (index = new size-1, size; "
         "operand of the new and of the old shape; x within 3 ulp or a geometric ladder 1e-16..1e-4 of the converted domain ends and tolerance points); for tables of 2 .. 1000+ points "
@@ -29,12 +29,14 @@ LEVEL_TEXT = ("Theorems (Coq, all argument values, sizes and table lengths): for
               "its domain and reads nothing out of bounds, and afterwards every guard is the stateless one on (Rows(), Columns()) (same for Vector); a sequence of Factorial / "
               "Binomial_Coefficient requests returns iff each one is meaningful, for every content of the memo table; a sequence of requests on one Interpolation object (Save_Function's sweep over Linear_Space(domain) included) exits iff one of them does, "
               "and every index its Locate requests return lies in 0..N-2 for every table length and unit argument; Save_Function returns for every number of points in exact arithmetic (over R). "
+              "Every kind of request on an Interpolation object exits iff it is refused by Locate's domain test alone (C10_interpolation_request_outcome: Locate / Interpolate / Derivative(x, n) of every order n iff Locate(x) exits - C10_derivative_every_order: the order plays no role -, Integrate iff one end is refused, Local_Minimum/Maximum iff the ends are out of order or one is refused, Global_* never), a sequence exits iff one request is refused (C10_interpolation_sequence_refused_iff); Interpolation_2D::Interpolate(x, y) exits iff x or y is refused by the Locate of its axis and a sequence of such requests iff one point is (C10_interpolate_2d_outcome, C10_interpolation_2d_request_sequence). Method names: a name is accepted iff it is one of the documented strings character by character, Integrate_2D/_3D accept exactly the union (C10_method_names_spelled_out). Interpolation_2D(data_table) in full (C10_interpolation_2d_table_constructor, every strictly ordered number type): accepted iff every row holds three numbers, the table has |x| * |y| rows, row ix*|y|+iy holds (x[ix], y[iy], .) for the sorted distinct first entries x and second entries y, and both are strictly increasing with >= 2 entries, otherwise Exit, nothing out of range; and stated without the constructor's sorting: the full grid X x Y of two strictly increasing lists, written row by row, is accepted (C10_interpolation_2d_table_grid_accepted; the sorted distinct columns of such a table are proved to be X and Y by induction). "
+              "The whole life of an object (C10_interpolation_lifetime, C10_interpolation_2d_lifetime, every strictly ordered number type): construction with unit arguments followed by any sequence of requests ends the process iff the sizes are wrong, the CONVERTED table is not strictly increasing (1-D and 2-D alike: the constructors validate the abscissae they store) or one request is refused on the converted table, and otherwise returns with `domain` = first and last converted abscissa. "
               "Coinciding arguments: Integrate(x, x) and Local_Minimum/Maximum(x, x) are refused exactly when Interpolate(x) is. Requests made while another one runs or after others in the process: "
               "Integrate / Integrate_2D / Integrate_3D around a call-back end the process iff the method is unknown or the call-back is reached (no pair of limits coincides for the nested methods; always for the Monte Carlo methods) and its request ends it, "
               "descending limits are judged like ascending ones, an exception of the call-back reaches the caller, Find_Root evaluates its function before it tests the bracket (over R resp. every number type); "
               "a sequence of requests in one process goes on iff each returns, and a request after returned ones has its own outcome (this is a statement about the model's composition: that the real process carries no state from one request "
               "to the diagnostic of the next - stream state, statics - is observed by the run, which truncates the captured output before every request of a sequence and runs every sequence in a process of its own). "
-              "Unit arguments: Interpolation(x, f, x_dim, f_dim) with x_dim <= 0 leaves the table as it is, with x_dim > 0 the converted table is strictly increasing again, `domain` is its "
+              "Unit arguments: Interpolation(x, f, x_dim, f_dim) / Interpolation(table, x_dim, f_dim) test the sizes on the lists as given and `strictly increasing` on the converted abscissae - accepted iff sizes agree, >= 2 points and the converted table is strictly increasing (C10_interpolation_units_constructor, every strictly ordered number type, so a conversion that rounds two neighbours onto one double is refused); a unit that is not > 0 is the plain constructor and in exact arithmetic a unit never changes the verdict (C10_interpolation_units_default_and_exact); x_dim <= 0 leaves the table as it is, with x_dim > 0 the converted table is strictly increasing again, `domain` is its "
               "first and last abscissa and the 1 % rule is the one of the converted table (over R). "
               "Index/shape theorems are over Z and hold for the unsigned 32-bit arithmetic of the code (wrap-around explicit); order-only theorems are over an abstract "
               "number type with OrdLaws (valid for doubles without NaN, rounding included); the 1 % tolerance, p in [0,1] and the sign-of-product test are over R. "
@@ -44,7 +46,7 @@ LEVEL_TEXT = ("Theorems (Coq, all argument values, sizes and table lengths): for
               "and with an independent statement of each domain (S4); for request sequences on one Interpolation object the indices returned by Locate are compared with the model and "
               "with the interval that contains the argument, and every answer with the answer of an untouched copy of the object (the search state jLast / correlated_calls is not in the model). Not covered by theorems: Ridder's inner 'does not reach the root' exit (C02), the 'Matrix is singular' "
               "exit inside Gauss-Jordan (C05; cannot fire in exact arithmetic when det != 0), Inv_Erf's nested bracket for |p|<1 (holds in doubles because erf(+-10) = +-1), "
-              "the Interpolation_2D table constructor (modelled and run, only its row-size guard is a theorem), NaN parameters (pass every '<' guard; only Find_Root and Locate test for NaN).")
+              "which of the documented integrators a documented name is dispatched to (only acceptance / refusal of the name is modelled), NaN parameters (pass every '<' guard; only Find_Root and Locate test for NaN).")
 LEVEL_NOTE = ("Coq 8.16.1 kernel; guard model hand-written from the current sources, containers abstracted to their sizes where their contents do not matter; "
               "theorems over Z/nat and the abstract order are axiom-free, theorems over R use the standard library's real-number axioms; Locate is modelled with its bisection branch "
               "(the hunt branch returns the same index: C09; the run checks it on every request sequence against an untouched copy of the object); Linear_Space is modelled inside Save_Function; std::sort/unique/is_sorted/upper_bound modelled by their specifications; process exit status, diagnostics and "
@@ -53,7 +55,8 @@ TOL = (0.0, 0.0)
 TRUSTED = ["fork/exit-status/diagnostic capture of harness/common.hpp; AddressSanitizer, UBSan and _GLIBCXX_ASSERTIONS as detectors of out-of-bounds accesses",
            "std::is_sorted / std::upper_bound / std::sort / std::unique are modelled by their specifications"]
 ASSUMPTIONS = ["Matrix::Resize / Assign with a negative int size (std::length_error from std::vector::resize) and unit arguments that over- or underflow the table into "
-               "one that is not strictly increasing any more are outside the quantifier (the former is not generated; the latter is generated in the thorough tier and compared with the model, without an S4 claim)",
+               "one with a NaN abscissa are outside the quantifier (the former is not generated; the latter is compared with the model, without an S4 claim); a unit argument that rounds two neighbouring abscissae onto one double or carries "
+               "the last ones to infinity makes the stored table not strictly increasing: the constructor must refuse it (S4 claim, generated in both tiers)",
                "NaN parameters are outside the quantifier (only Find_Root's end values and Locate's argument are tested for NaN); Inv_Erf(1.0) returns 10 by design",
                "tables with a NaN abscissa are generated and compared with the model, without an S4 claim; a strictly increasing table with an infinite first or last abscissa is accepted (requests on it have no S4 claim)",
                "sizes, counts and indices are below 2^31 except the index arguments themselves (which range over all of unsigned int)"]
@@ -174,19 +177,26 @@ def linear_space(a, b, n):
     return [a + i * step for i in range(n)]
 
 
+def converted(xs, dim):
+    """the abscissae the object stores: `if(x_dim > 0.0) x *= x_dim` (a NaN unit is not > 0)"""
+    return [x * dim for x in xs] if dim > 0 else list(xs)
+
+
 def icalls_ref(t):
-    """(verdict, expected domain or None) of `icalls` / `icalls_t`"""
+    """(verdict, expected domain or None) of `icalls` / `icalls_t`: the sizes are judged on the lists as given, "strictly increasing" on the
+    converted abscissae (two neighbours that the conversion rounds onto one double, or carries to infinity together, make the table meaningless)"""
     if t[0] == "icalls":
         xs, pos = rd_list(t, 1, tokf); nf = int(t[pos]); pos += 1
-        ctor = False if len(xs) != nf else valid_table(xs)
+        sizes = len(xs) == nf
     else:
         rows, pos = rd_table(t, 1)
-        if any(len(r) != 2 for r in rows): ctor, xs = False, []
-        else: xs = [r[0] for r in rows]; ctor = valid_table(xs)
+        sizes = all(len(r) == 2 for r in rows); xs = [r[0] for r in rows] if sizes else []
     xd = tokf(t[pos]); pos += 2
+    if not sizes or len(xs) < 2: return False, None
+    ctor = valid_table(converted(xs, xd))
     if ctor is not True: return ctor, None
     sx = scaled_table(xs, xd)
-    if sx is None: return None, None
+    if sx is None: return None, None       # a valid converted table with an infinite end: accepted, no claim about the requests on it
     n = int(t[pos]); pos += 1
     return worst(icall_verdicts(t, pos, n, sx)), (sx[0], sx[-1])
 
@@ -325,7 +335,7 @@ def miser_zero_width(t):
     """region of known finding K-C10-3: Integrate_2D / Integrate_3D with method "Miser" over a region one of whose dimensions has coinciding limits
     (anywhere in the case: the request itself, a sub-case of a sequence)"""
     for i, w in enumerate(t):
-        if w in ("int2", "int3") and i + 1 < len(t) and t[i + 1] == "Miser":
+        if w in ("int2", "int3") and i + 1 < len(t) and mdec(t[i + 1]) == "Miser":
             d = 4 if w == "int2" else 6; lim = [tokf(x) for x in t[i + 2:i + 2 + d]]
             if len(lim) == d and None not in lim and any(lim[2 * k] == lim[2 * k + 1] for k in range(d // 2)): return True
     return False
@@ -363,7 +373,7 @@ def nested_ref(t):
         inner = True if sub == ["throw"] else meaningful(" ".join(sub))
         if inner is not True or sub == ["throw"]: return inner
         return meaningful("find_root " + " ".join(t[2:pos]))
-    d = {"int1": 2, "int2": 4, "int3": 6}[e]; m = t[2]; lim = [tokf(x) for x in t[3:3 + d]]; sub = t[3 + d + 1:]
+    d = {"int1": 2, "int2": 4, "int3": 6}[e]; m = mdec(t[2]); lim = [tokf(x) for x in t[3:3 + d]]; sub = t[3 + d + 1:]
     if any(math.isnan(v) or math.isinf(v) for v in lim): return None
     inner = True if sub == ["throw"] else meaningful(" ".join(sub))
     if m in M1D: return True if any(lim[2 * k] == lim[2 * k + 1] for k in range(d // 2)) else inner
@@ -423,9 +433,9 @@ def meaningful(line):
     if op == "workload": return I(1) >= 1
     if op == "minimize": return I(1) == I(2) if I(1) >= 1 else None
     if op == "kde": return True if I(1) >= 1 else None
-    if op in ("integrate", "integrate_eq"): return t[1] in M1D
-    if op in ("integrate_2d", "integrate_3d"): return t[1] in M1D + MMC
-    if op == "integrate_mc": return t[1] in MMC
+    if op in ("integrate", "integrate_eq"): return mdec(t[1]) in M1D
+    if op in ("integrate_2d", "integrate_3d"): return mdec(t[1]) in M1D + MMC
+    if op == "integrate_mc": return mdec(t[1]) in MMC
     if op == "gauss_legendre":
         lens, _ = rd_list(t, 2, int); return I(1) == len(lens) and all(l == 2 for l in lens)
     if op == "metropolis": return I(1) in (0, 2)
@@ -495,6 +505,166 @@ def meaningful(line):
         if nan(*l): return None
         return len(l) >= 1 and all(a <= b for a, b in zip(l, l[1:]))
     return None
+
+
+# ------------------------------------------------------------------ method names
+def menc(name):
+    """token of a method name (str of code points 0..255): the name itself when it can be a token of the case language, else `%` + its bytes in hexadecimal"""
+    if name and not name.startswith("%") and all(0x21 <= ord(ch) <= 0x7e for ch in name): return name
+    return "%" + name.encode("latin-1").hex()
+
+
+def mdec(tok):
+    if not tok.startswith("%"): return tok
+    try: return bytes.fromhex(tok[1:]).decode("latin-1")
+    except ValueError: return tok
+
+
+M32 = 0xffffffff
+def _hspec(kind, B, seed):
+    Bi = pow(B, -1, 1 << 32)
+    if kind == "add": return (seed, lambda h, c: (h * B + c) & M32, lambda h, c: ((h - c) * Bi) & M32)        # h = h * B + c
+    if kind == "xor": return (seed, lambda h, c: ((h * B) & M32) ^ c, lambda h, c: ((h ^ c) * Bi) & M32)       # h = (h * B) ^ c
+    return (seed, lambda h, c: ((h ^ c) * B) & M32, lambda h, c: ((h * Bi) & M32) ^ c)                          # h = (h ^ c) * B
+# the string hashes of the "switch over strings" / hand-made look-up table idioms (32 bit): a dispatch that compares hash values instead of the
+# names accepts every unknown name whose hash coincides with that of a documented one
+HASHES = {"djb2": _hspec("add", 33, 5381), "djb2a": _hspec("xor", 33, 5381), "sdbm": _hspec("add", 65599, 0), "java31": _hspec("add", 31, 0), "bkdr131": _hspec("add", 131, 0),
+          "fnv1": _hspec("xor", 16777619, 2166136261), "fnv1a": _hspec("xorfirst", 16777619, 2166136261)}
+HASH_ALPHA = [ord(ch) for ch in "abcdefghijklmnopqrstuvwxyzABCDEFGHIJKLMNOPQRSTUVWXYZ"]
+_fwd_cache = {}
+
+
+def hash_of(hname, name):
+    seed, f, _ = HASHES[hname]; h = seed
+    for ch in name: h = f(h, ord(ch))
+    return h
+
+
+def _words(n):
+    """all n-letter words over HASH_ALPHA as tuples of character codes, in a fixed order"""
+    if n == 0: yield (); return
+    for w in _words(n - 1):
+        for c in HASH_ALPHA: yield w + (c,)
+
+
+def second_preimage(hname, known):
+    """an unknown name with the 32-bit hash value of `known`, by meeting in the middle (k letters forward from a start state, up to three letters backward from the
+    target value).  Two shapes are tried: `known` with its last (up to) six characters replaced - for the multiplicative hashes with a small factor the values of
+    names of another length lie in another range - and six free letters.  Deterministic; None when neither search space holds one."""
+    seed, f, g = HASHES[hname]
+    target = hash_of(hname, known)
+    L = min(len(known), 6)
+    for prefix, nf, nb in ((known[:-L], L - L // 2, L // 2), ("", 3, 3)):
+        key = (hname, prefix, nf)
+        if key not in _fwd_cache:
+            h0 = seed
+            for ch in prefix: h0 = f(h0, ord(ch))
+            d = {}
+            for w in _words(nf):
+                h = h0
+                for c in w: h = f(h, c)
+                d[h] = w
+            _fwd_cache.clear(); _fwd_cache[key] = d
+        d = _fwd_cache[key]
+        for w in _words(nb):
+            h = target
+            for c in w: h = g(h, c)          # w is the reversed suffix
+            pre = d.get(h)
+            if pre is not None:
+                name = prefix + "".join(chr(v) for v in pre + w[::-1])
+                if name not in M1D + MMC: return name
+    return None
+
+
+COLLISION_FILE = os.path.join(vbuild.VERIF, "corpus", PID, "method_names.dat")
+def hash_collisions():
+    """{(hash, documented name): unknown name with the same 32-bit hash value}.  Read from corpus/C10/method_names.dat (lines `hash known hex-of-name`, every line
+    is re-verified here, so the file is a cache and not a premise) and completed by search for the pairs it lacks."""
+    out = {}
+    if os.path.exists(COLLISION_FILE):
+        for l in open(COLLISION_FILE).read().split("\n"):
+            w = l.split()
+            if len(w) != 3 or w[0] not in HASHES or w[1] not in M1D + MMC: continue
+            if w[2] == "-": out[(w[0], w[1])] = None; continue           # searched, none in the search space
+            try: name = bytes.fromhex(w[2]).decode("latin-1")
+            except ValueError: continue
+            if name not in M1D + MMC and hash_of(w[0], name) == hash_of(w[0], w[1]): out[(w[0], w[1])] = name
+    for hname in HASHES:
+        for known in M1D + MMC:
+            if (hname, known) not in out:
+                name = second_preimage(hname, known)
+                if name is not None: out[(hname, known)] = name
+    _fwd_cache.clear()
+    return {k: v for k, v in out.items() if v is not None}
+
+
+def exact_polynomial_collisions(known):
+    """names that collide with `known` under h = h * B + c for B = 31, 33, 37 (and 2: shift-and-add) in integer arithmetic, hence for every word size and seed:
+    character i raised by k, character i+1 lowered by k * B"""
+    out = []
+    for B in (2, 31, 33, 37):
+        for i in range(len(known) - 1):
+            for k in (1, -1, 2, -2):
+                a, b = ord(known[i]) + k, ord(known[i + 1]) - k * B
+                if 0x21 <= a <= 0x7e and 0x21 <= b <= 0x7e: out.append((B, known[:i] + chr(a) + chr(b) + known[i + 2:]))
+    return out
+
+
+def name_variants(known):
+    """unknown method names that a comparison weaker than equality of the whole string takes for `known`: [(kind, name)]"""
+    n = len(known); v = []
+    for k in range(n): v.append(("prefix", known[:k]))                                                      # strncmp(name, known, name.size()), find() == 0
+    for suf in ("s", "_", "2", " ", "\t", "\n", "\r\n", "\0", "\0x", ".", "-", known[-1], known): v.append(("extension", known + suf))   # strncmp(.., known.size()), strcmp on c_str() (NUL)
+    for pre in (" ", "\t", "_", known[0], "x", "\0"): v.append(("leading", pre + known))
+    for k in range(n):
+        c = known[k]
+        if c.swapcase() != c: v.append(("case", known[:k] + c.swapcase() + known[k + 1:]))
+        for d in (1, -1): v.append(("neighbour-character", known[:k] + chr(ord(c) + d) + known[k + 1:]))
+        v.append(("high-bit", known[:k] + chr(ord(c) | 0x80) + known[k + 1:]))                              # char is signed: hashes / tables indexed by a character
+        v.append(("deletion", known[:k] + known[k + 1:])); v.append(("doubling", known[:k] + c + known[k:]))
+        if k + 1 < n and known[k] != known[k + 1]: v.append(("transposition", known[:k] + known[k + 1] + known[k] + known[k + 2:]))   # same multiset: sum / xor of the characters
+        if k + 1 < n: v.append(("sum-preserving", known[:k] + chr(ord(c) + 1) + chr(ord(known[k + 1]) - 1) + known[k + 2:]))
+    v += [("case", known.upper()), ("case", known.lower()), ("case", known.swapcase()), ("anagram", known[::-1]), ("anagram", "".join(sorted(known)))]
+    v += [("same-length", "x" * n), ("same-length-first", known[0] + "x" * (n - 1)), ("same-length-first-last", known[0] + "x" * (n - 2) + known[-1]), ("first-character", known[0]),
+          ("same-length-but-one", known[:-1] + "x"), ("same-length-but-one", "x" + known[1:])]
+    for sep in ("_", " ", "", "--", "\xe2\x80\x90"):
+        if "-" in known or "_" in known: v.append(("separator", known.replace("-", "\0").replace("_", "-").replace("\0", sep)))
+    for B, nm in exact_polynomial_collisions(known): v.append((f"polynomial-hash-exact-{B}", nm))
+    seen = set(); out = []
+    for kind, nm in v:
+        if nm in M1D + MMC or nm in seen: continue
+        seen.add(nm); out.append((kind, nm))
+    return out
+
+
+def gen_method_names(rng, big, add):
+    """every documented name on every entry point; unknown names built from each documented name by every weakening of string equality that a dispatch
+    may use by mistake (prefix / length-limited / NUL-terminated / case-blind / character-set comparisons, per-character tables, 32-bit string hashes)"""
+    valid = {"integrate": M1D, "integrate_eq": M1D, "integrate_2d": M1D + MMC, "integrate_3d": M1D + MMC, "integrate_mc": MMC}
+    col = hash_collisions()
+    for known in M1D + MMC:
+        first = "integrate" if known in M1D else "integrate_mc"       # the entry point that dispatches on this name itself
+        home = [op for op in valid if known in valid[op] and op not in (first, "integrate_eq")]
+        away = [op for op in valid if known not in valid[op]]
+        names = [(f"hash-{hn}", col[(hn, known)]) for hn in HASHES if (hn, known) in col] + name_variants(known)
+        quota = {}
+        for kind, nm in names:
+            tok = menc(nm)
+            if big: ops = [first] + home + away
+            elif kind.startswith("hash-"): ops = [first, rng.choice(home)]
+            elif kind.startswith("polynomial-hash-exact"):
+                quota[kind] = quota.get(kind, 0) + 1
+                if quota[kind] > 2: continue
+                ops = [first] if quota[kind] == 1 else [rng.choice([first] + home)]
+            elif rng.random() < 0.22: ops = [rng.choice([first] + home)]
+            else: continue
+            for op in ops: add(f"{op} {tok}", "method", "method-" + kind, nt=True)
+    # the same unknown names where a request is made while another one runs (Integrate_2D / _3D test the name before they forward it)
+    for known in M1D + MMC:
+        vs = name_variants(known) + [("hash", col[k]) for k in col if k[1] == known]
+        for kind, nm in (vs if big else rng.sample(vs, 2)):
+            e = rng.choice(["int1", "int2", "int3"]); d = {"int1": 2, "int2": 4, "int3": 6}[e]
+            add(f"nested {e} {menc(nm)} " + " ".join(hx(v) for v in [0.0, 1.0] * (d // 2)) + f" 1 {rng.choice(['throw', 'factorial 5', 'factorial 171'])}", "method", "request-inside-callback", nt=True)
 
 
 # ------------------------------------------------------------------ generator
@@ -601,6 +771,8 @@ def generate(rng, tier):
         nt = m not in M1D + MMC
         for op in ("integrate", "integrate_eq", "integrate_2d", "integrate_mc"): add(f"{op} {m}", "method", nt=nt or op == "integrate_eq")
         if m not in ("Trapezoidal", "Tanh-Sinh", "Gauss-Kronrod", "Adaptive-Simpson") or big: add(f"integrate_3d {m}", "method", nt=nt)
+    for op in ("integrate", "integrate_2d", "integrate_3d", "integrate_mc"): add(f"{op} %", "method", "method-empty", nt=True)      # the empty name
+    gen_method_names(rng, big, add)
     # ---- Gauss-Legendre tables
     for nf in (0, 1, 2, 3):
         for lens in [[], [2], [1], [3], [2, 2], [2, 1], [1, 2], [2, 3], [2, 2, 2], [2, 2, 0], [0, 2, 2]]:
@@ -737,7 +909,7 @@ def gen_sessions(rng, big, add, edge_points):
     fdims = [-1.0, 2.5, 0.0, 1e-30]
     def call(kind, x, y=None):
         if kind in ("loc", "ev"): return f"{kind} {hx(x)}"
-        if kind == "der": return f"der {hx(x)} {rng.choice([0, 1, 2, 3, 4])}"
+        if kind == "der": return f"der {hx(x)} {rng.choice([0, 1, 2, 3, 4, 4, 5, 7, 100, UMAX])}"
         return f"{kind} {hx(x)} {hx(y)}"
     def head(g, xd, fd, table):
         if table: return f"icalls_t {len(g)} " + " ".join(f"2 {hx(x)} {hx(0.5 * x - 1.0)}" for x in g) + f" {hx(xd)} {hx(fd)}"
@@ -788,6 +960,7 @@ def gen_sessions(rng, big, add, edge_points):
                 if tail < 0.35: calls.append(call("ev", rng.choice(outside)))
                 elif tail < 0.5: calls.append(call("ev", rng.choice(pts)))
                 add(f"{h} {len(calls)} " + " ".join(calls), "request-sequence", nt=True)
+    gen_unit_collapse(rng, big, add)
     # malformed tables with unit arguments: the validation is that of the plain constructor
     for xs in [[], [1.0], [2.0, 1.0], [1.0, 1.0], [0.0, 1.0, 1.0], [1.0, 2.0]]:
         for xd in (10.0, -1.0):
@@ -937,6 +1110,42 @@ SIMPLE_GOOD = ["vec_at 3 2", "factorial 170", "vec_add 3 3", "trace 3 3", "mat_m
                "icalls 3 0x0p+0 0x1p+0 0x1p+1 3 0x1.4p+3 -0x1p+0 2 ev 0x1p+3 int 0x1p+2 0x1p+2", "mat_hist 3 3 1 resize 2 5 plus 2 5", "fact_seq 2 f 170 f 3", "inverse 2 2 0x0p+0 0x1p+0 0x1p+0 0x0p+0", "cdf_binomial 5 0x1p-1 2"]
 
 
+def gen_unit_collapse(rng, big, add):
+    """tables that are strictly increasing as given, with two neighbouring abscissae 1 .. 3 ulp (and a geometric ladder of relative distances) apart, and unit
+    arguments under which the products may round onto one double (the stored table is then not strictly increasing: the constructor must exit) or stay apart
+    (it must return and judge requests on the stored table); tables whose last abscissae overflow to +inf together; tables that underflow onto 0 or onto one
+    subnormal; at the first, an inner and the last pair, for the list and the table overload"""
+    dims = [0.6, 0.1, 1.0, 3.0, 0.3, 0.7, 1.0 / 3.0, 0.5, 2.0, 1e-3, 10.0, 5.0677e15, 1.9733e-16, -1.0]
+    bases = [1.0, 1.5, 3.0, 7.0, 1e6 + 0.5, 0.1, 1e-3, -2.0, -1e3, 123.456]
+    def tables(x0, x1):
+        """tables that hold the close pair (x0, x1) at the front, inside and at the end"""
+        w = max(abs(x0), 1e-300)
+        return [[x0, x1, x1 + w, x1 + 2 * w], [x0 - w, x0, x1, x1 + w], [x0 - 2 * w, x0 - w, x0, x1], [x0, x1]]
+    for b in (bases if big else rng.sample(bases, 4)):
+        gaps = [1, 2, 3] + ([4, 8] if big else [])
+        pairs = [(b, b + k * (na(b, math.inf) - b)) for k in gaps] + [(b, b * (1 + r) if b > 0 else b * (1 - r)) for r in ((1e-15, 1e-13, 1e-10) if big else (rng.choice([1e-15, 1e-13]),))]
+        for (x0, x1) in pairs:
+            if not x0 < x1: continue
+            for d in (dims if big else [0.6, 0.1, 1.0, 3.0] + rng.sample(dims[4:], 2)):
+                tbs = tables(x0, x1)
+                for g in (tbs if big else rng.sample(tbs, 2)):
+                    if not valid_table(g): continue
+                    table = rng.random() < 0.3
+                    h = (f"icalls_t {len(g)} " + " ".join(f"2 {hx(x)} {hx(1.0)}" for x in g) if table else f"icalls {flist(g)} {len(g)}") + f" {hx(d)} {hx(rng.choice([-1.0, 2.5]))}"
+                    sx = converted(g, d)
+                    if valid_table(sx) and rng.random() < 0.5: add(f"{h} 2 ev {hx(sx[0])} loc {hx(sx[-1])}", "units-collapse", nt=True)
+                    else: add(f"{h} 0", "units-collapse", nt=True)
+    # the top of the table overflows: two or more abscissae become +inf (refused), exactly one becomes +inf (accepted), none does
+    for g in [[1e300, 1.5e300], [0.0, 1e300, 1.5e300], [0.0, 1e300, 1.5e300, 1.7e308], [-1.5e300, -1e300, 0.0], [1.0, 1e308, 1.7e308], [-1.7e308, -1e308, 1.0, 2.0]]:
+        for d in (1e10, 10.0, 2.0, 1.0 + 2.0 ** -52, 1.01):
+            add(f"icalls {flist(g)} {len(g)} {hx(d)} {hx(-1.0)} 0", "units-collapse", nt=True)
+            if big or rng.random() < 0.3: add(f"icalls_t {len(g)} " + " ".join(f"2 {hx(x)} {hx(1.0)}" for x in g) + f" {hx(d)} {hx(-1.0)} 0", "units-collapse", nt=True)
+    # the bottom underflows: neighbours become one subnormal or zero
+    for g in [[1e-300, 2e-300, 3e-300], [0.0, 1e-310, 2e-310], [-1e-300, 0.0, 1e-300], [DMIN, 2 * DMIN, 3 * DMIN], [-2e-308, -1e-308, 1.0]]:
+        for d in (1e-30, 0.5, 0.25, 1e-300, 0.6):
+            add(f"icalls {flist(g)} {len(g)} {hx(d)} {hx(-1.0)} 0", "units-collapse", nt=True)
+
+
 def gen_process_histories(rng, big, add, pool):
     """a request that is not the first one the process makes, and a request made while another one is running:
     (a) `nested`: a guarded request made by the function handed to Integrate / Integrate_2D / Integrate_3D / Find_Root (an integrand that evaluates an
@@ -1040,7 +1249,7 @@ def gen_nonfinite_tables(rng, big, add):
         if xs in bad or big:
             rows = [[x, y, 1.0] for x in xs for y in gy] if rng.random() < 0.5 else [[y, x, 1.0] for y in gy for x in xs]
             add(f"interp2d_table {len(rows)} " + " ".join(flist(r) for r in rows), "nonfinite-table", nt=True)
-    # unit arguments that carry the last abscissae to infinity: the one-dimensional constructor validates the table as given, the two-dimensional
+    # unit arguments that carry the last abscissae to infinity: both constructors validate the converted table (see also gen_unit_collapse); the two-dimensional
     # one after the conversion (compared with the model; no verdict of its own, see ASSUMPTIONS)
     for xs in [[1e300, 1.5e300], [0.0, 1e300, 1.5e300], [-1.5e300, -1e300, 0.0]]:
         add(f"icalls {flist(xs)} {len(xs)} {hx(1e10)} {hx(-1.0)} 0", "nonfinite-table", nt=True)
@@ -1080,7 +1289,7 @@ def gen_long_sessions(rng, big, add):
     else: lengths = [2, 3, 11, 12, rng.choice([21, 33, 64, 65, 129]), 256, 257, rng.choice([258, 300, 511, 512]), 513, rng.choice([1000, 1024, 1025])]
     def call(kind, x, y=None):
         if kind in ("loc", "ev"): return f"{kind} {hx(x)}"
-        if kind == "der": return f"der {hx(x)} {rng.choice([0, 1, 2, 3])}"
+        if kind == "der": return f"der {hx(x)} {rng.choice([0, 1, 2, 3, 4, 6, UMAX])}"
         return f"{kind} {hx(x)} {hx(y)}"
     for n in lengths:
         for rep in range(1 if (not big or n > 300) else 2):
